@@ -35,6 +35,8 @@ pub struct SeqScenario {
     /// Build the pool with (one hour) wait/create/recycle timeouts and the
     /// tokio runtime: the timeout wrappers are on every path but never fire.
     pub timeouts: bool,
+    /// ... with `Duration::MAX` (the "never" idiom) instead of one hour.
+    pub timeouts_max: bool,
     /// Breadth-first mode: an execution ends after the first step past its
     /// replay prefix and reports the state it reached (explorer::bfs_visit).
     pub bfs: bool,
@@ -61,6 +63,7 @@ impl SeqScenario {
             prefill: 0,
             reach: None,
             timeouts: false,
+            timeouts_max: false,
             bfs: false,
         }
     }
@@ -300,7 +303,7 @@ pub fn run_seq(sc: &SeqScenario) -> Outcome {
     let rt = if sc.timeouts { Some(tokio::runtime::Builder::new_current_thread().enable_time().start_paused(true).build().expect("runtime")) } else { None };
     let _enter = rt.as_ref().map(|r| r.enter());
     let pool = if sc.timeouts {
-        let hour = Some(std::time::Duration::from_secs(3600));
+        let hour = Some(if sc.timeouts_max { std::time::Duration::MAX } else { std::time::Duration::from_secs(3600) });
         build_pool_with(Timeouts { wait: hour, create: hour, recycle: hour }, Some(deadpool::Runtime::Tokio1)).expect("build with runtime")
     } else {
         build_pool()
